@@ -12,6 +12,7 @@ import ast
 
 from ..gfi.all import ALL
 from ..gfi.common import run_for
+from ..program import AnalysisError
 from ..rules import Arms, is_call, is_mcall
 from ..terms import C, Evaluator, G, P, is_t, mk_proj, show
 from .C38 import request_combinators
@@ -56,12 +57,18 @@ def propagate(chk, prog):
     chk.require(ok, "TAG-PROPAGATE", "Diff.static_check_no_change", "universal test over every tangent leaf", derived=show(t)[:300], expected="all(isinstance(leaf, _NoChange) for leaf in leaves(tree_tangent(v)))", where=f"{D.module.rel}:{D.methods['static_check_no_change'].lineno}")
     # tree_tangent of a non-Diff leaf is NoChange; tree_primal is the identity on it (used by the normalisation)
     for meth, want_diff, want_plain in (("tree_primal", "get_primal", "v"), ("tree_tangent", "get_tangent", "NoChange")):
-        inner = prog.nested(D.methods[meth], "_inner")
-        ri = Evaluator(prog).eval_fn(inner, D.module, D)
-        got = Arms()
-        for conds, ret in ri.returns:
-            got["diff" if any(is_t(tt, "isinst") and tt[2] == "Diff" and p for tt, p in conds) else "plain"] = ret
-        okd = is_mcall(got.get("diff"), want_diff) and (got.get("plain") == P("v") if want_plain == "v" else (is_t(got.get("plain"), "global") and got["plain"][1].endswith("NoChange")))
+        from ._diff import component, leaf_cases, leaf_projection
+        from ..rules import Undecided
+        oks_, L_, body_, _okleaf, _txt = leaf_projection(prog, meth)
+        got = {}
+        okd = False
+        if oks_:
+            try:
+                dv, pv = leaf_cases(L_, body_)
+                got = {"diff": dv, "plain": pv}
+                okd = component(L_, dv, "primal" if meth == "tree_primal" else "tangent") and (pv == L_ if want_plain == "v" else (is_t(pv, "global") and pv[1].endswith("NoChange")))
+            except Undecided as e_:
+                raise AnalysisError(f"Diff.{meth}: unrecognised leaf test {e_}")
         chk.require(okd, "TAG-PROPAGATE", f"Diff.{meth}", f"leafwise projection", derived={k: show(v) for k, v in got.items()}.__str__(), expected=f"Diff -> {want_diff}(); plain leaf -> {want_plain}", where=f"{D.module.rel}:{D.methods[meth].lineno}")
 
 
